@@ -6,13 +6,14 @@
      store of their sequential composition (n threads);
    - the footprint table of the library's operation families (Indep.v, fp_of): with the
      structural facts that tools/genparams.py regenerates from the Go sources (registries
-     locked, the notation keeps no formatter/parser, the sorter class keeps no collator),
+     locked, the notation keeps no formatter/parser, the sorter class keeps no collator, a
+     collator call does not write the collator),
      operations on distinct instances do not conflict outside the registries' critical
      sections, and not at all once the classes exist; hence any implementation respecting the
      table is independent across threads (C19_table_programs_independent);
    - the registry protocol: under every interleaving one class per type key, returned to all;
    - the pre-repair tree (D23, D24) and the unlocked registry are refuted by explicit
-     interleavings; one known finding (derived sets share a collator) is recorded.
+     interleavings, as is the collator that kept its depth counter in the instance (D29).
    What is NOT proved: that the Go code's memory accesses stay inside the table.  That is
    exercised by the race detector and by concurrent-versus-sequential runs (harness/indep.go,
    IndepRun.v).
@@ -20,7 +21,7 @@
    Full-strength statement of the property, not proved as such:
      for every Go program made of the library's operations on distinct instances in several
      goroutines, every execution is race free and returns the sequential results. *)
-From Verif Require Import Base Params Indep Registry IndepProofs RegistryProofs.
+From Verif Require Import Base Params Indep IndepFacts Registry IndepProofs RegistryProofs.
 Open Scope Z_scope.
 
 Theorem C19_indep_commutes_partial :
@@ -176,12 +177,45 @@ Example C19_repaired_pairs_clean :
   racy_conflict repaired_facts par_a par_b = false /\ conflict repaired_facts srt_a srt_b = false.
 Proof. exact repaired_pairs_clean. Qed.
 
-(* KNOWN FINDING (not repaired): the result of Set.And/Or/Sans/Xor uses the collator instance of
-   the first operand; two distinct collections, one collator *)
-Theorem C19_derived_set_shares_collator_refuted :
+(* D29 (repaired): before the repair searching a set and a set derived from it (which keeps
+   the operand's collator instance), or ranking with one collator from two goroutines, conflict *)
+Theorem C19_derived_set_shares_collator_refuted_prefix :
   od_recv set_a <> od_recv set_r /\ disjoint_insts set_a set_r = false /\
-  racy_conflict current_facts set_a set_r = true.
-Proof. exact derived_set_shares_collator_refuted. Qed.
+  racy_conflict prefix_facts set_a set_r = true /\
+  racy_conflict prefix_facts rank_a rank_b = true.
+Proof. exact derived_set_shares_collator_refuted_prefix. Qed.
+
+(* after it: searches and rankings write nothing, so they never conflict with one another,
+   whatever collections and collators are shared *)
+Theorem C19_searches_and_rankings_share_freely :
+  forall (F : facts) (a b : opdesc),
+    is_repaired F -> f_collator_shares_depth F = false ->
+    read_only_fam a -> read_only_fam b -> od_cold a = false -> od_cold b = false ->
+    conflict F a b = false.
+Proof. exact searches_and_rankings_share_freely. Qed.
+
+(* ... for the facts regenerated from the current sources: breaks when CompareValues/RankValues
+   touch the receiver's depth counter again *)
+Theorem C19_searches_and_rankings_share_freely_current :
+  forall a b : opdesc,
+    read_only_fam a -> read_only_fam b -> od_cold a = false -> od_cold b = false ->
+    conflict current_facts a b = false.
+Proof. exact searches_and_rankings_share_freely_current. Qed.
+
+Example C19_derived_set_clean_current :
+  read_only_fam set_a /\ read_only_fam set_r /\ read_only_fam rank_a /\
+  conflict current_facts set_a set_r = false /\ conflict current_facts rank_a rank_b = false /\
+  reads (fp_of current_facts set_a) <> [].
+Proof. exact derived_set_clean_current. Qed.
+
+(* the package-level variables of the Go sources are exactly the expected ones, all benign: the
+   registries (locked) are the only mutable class-level state the table has to account for *)
+Theorem C19_package_state_inventory :
+  Params.package_vars = expected_package_vars /\
+  forallb (fun p => benign_kind (snd p)) Params.package_vars = true /\
+  forallb registry_is_locked Params.package_vars = true /\
+  length (filter is_registry Params.package_vars) = length Params.registry_locked.
+Proof. exact package_state_inventory. Qed.
 
 Print Assumptions C19_indep_commutes_partial.
 Print Assumptions C19_schedule_independent.
@@ -189,10 +223,13 @@ Print Assumptions C19_ops_commute.
 Print Assumptions C19_distinct_instances_disjoint.
 Print Assumptions C19_distinct_instances_disjoint_current.
 Print Assumptions C19_table_programs_independent.
+Print Assumptions C19_package_state_inventory.
 Print Assumptions C19_registry_unique.
 Print Assumptions C19_registry_progress.
 Print Assumptions C19_registry_unlocked_refuted.
 Print Assumptions C19_string_shared_refuted_prefix.
 Print Assumptions C19_parse_shared_refuted_prefix.
 Print Assumptions C19_default_sorter_shared_refuted_prefix.
-Print Assumptions C19_derived_set_shares_collator_refuted.
+Print Assumptions C19_derived_set_shares_collator_refuted_prefix.
+Print Assumptions C19_searches_and_rankings_share_freely.
+Print Assumptions C19_searches_and_rankings_share_freely_current.
